@@ -474,7 +474,14 @@ func (self *StateStore) ClearAll() error {
 		self.store.NewBatch() // reset the batch
 		return err
 	}
-	return self.store.BatchCommit()
+	if err := self.store.BatchCommit(); err != nil {
+		return err
+	}
+	// the accumulators loaded by NewStateStore describe the data that was just deleted: start again from empty ones
+	if self.merkleHashStore != nil {
+		self.merkleHashStore.Close()
+	}
+	return self.init(0)
 }
 
 //Close state store
